@@ -20,12 +20,21 @@ RULE = ("fault plans: batch of 1..5 designs, each with k in 0..6 leading failure
         "when serial), replacements inside the box, final costs == f(final vector), RuntimeError after 5 failures; "
         "the full product of plans (7 counts x 3 type patterns) for batches <= 3 is enumerated in the thorough tier "
         "(<= 2 in quick). Non-trivial = a design with k in {4,5}, or a batch mixing failing and clean designs")
-ASSUMPTIONS = ["subclasses of RuntimeError/TimeoutError are not used as 'other' exceptions",
+ASSUMPTIONS = ["subclasses of RuntimeError/TimeoutError (user-defined ones, NotImplementedError) count as transient, like "
+               "their base classes; they are never used as 'other' exceptions",
                "replacement designs are compared with the box using the C08 tolerance 1e-12 + 4 ulp",
                "in the parallel variant at most one design exhausts its five attempts; for the others only per-design "
                "consistency is asserted after the exception (joblib cannot cancel running threads)"]
 
-TYPES = {"T": TimeoutError, "R": RuntimeError}
+class SolverDiverged(RuntimeError):
+    """a user-defined RuntimeError: it *is* a RuntimeError, so it is transient like its base class"""
+
+
+class LicenceTimeout(TimeoutError):
+    pass
+
+
+TYPES = {"T": TimeoutError, "R": RuntimeError, "S": SolverDiverged, "U": LicenceTimeout, "N": NotImplementedError}
 
 
 class CustomError(Exception):
@@ -47,7 +56,7 @@ def plans(draw):
     designs = []
     for _ in range(b):
         k = draw(st.sampled_from([0, 0, 1, 2, 3, 4, 4, 5, 5, 6]))
-        types = "".join(draw(st.sampled_from(["T", "R"])) for _ in range(k))
+        types = "".join(draw(st.sampled_from(["T", "R", "T", "R", "S", "U", "N"])) for _ in range(k))
         designs.append({"k": k, "types": types, "t": [draw(st.floats(0, 1)) for _ in range(n)]})
     mode = draw(st.sampled_from(["serial", "serial", "parallel"]))
     if mode == "parallel":
@@ -301,7 +310,7 @@ def check_other(case):
 
 # ---------------------------------------------------------------- exhaustive product of plans
 
-PATTERNS = ["T", "R", "TR"]
+PATTERNS = ["T", "R", "TS"]
 
 
 def plan_items(tier):
